@@ -15,9 +15,9 @@ ID = "C19"
 LEVEL = "exploration"
 RULE = (
     "case = operation sequence over {create, get, update activity, delete, advance clock, cleanup(max_age incl. exact idle-time boundaries +-1 and the default), "
-    "list+mutate (add/remove/clear the returned dict), clear, initialize through ProtocolHandler, dispatch ping / a registered method whose handler succeeds or raises / an unknown method with known/unknown/deleted session id} "
+    "list+mutate (add/remove/clear the returned dict), clear, initialize through ProtocolHandler (also arriving with the id of a live / gone session, with the same or another client info), dispatch ping / a registered method whose handler succeeds or raises / an unknown method with known/unknown/deleted session id} "
     "interpreted against the real store (time.time in the session module replaced by a controlled integer clock) and a dict model, compared after every step; "
-    "Hypothesis sequences up to 60 (quick) / 200 (thorough) steps, a Hypothesis RuleBasedStateMachine whose rules draw live sessions from a bundle (50 / 120 steps per run), plus all sequences of length<=4 (quick) / <=5 (thorough) over a 16-operation alphabet on a 3-session universe; "
+    "Hypothesis sequences up to 60 (quick) / 200 (thorough) steps, a Hypothesis RuleBasedStateMachine whose rules draw live sessions from a bundle (50 / 120 steps per run), plus all sequences of length<=4 (quick) / <=5 (thorough) over a 17-operation alphabet on a 3-session universe; "
     "non-trivial = sequence contains a cleanup at an exact boundary, or update/delete/get after delete/expiry, or a list mutation; distinct = distinct sequence"
 )
 ASSUMPTIONS = [
@@ -193,10 +193,17 @@ def check(case: Dict[str, Any]) -> Outcome:
                     out.fail("clear-count-differs", f"step {step}: {r!r} vs {len(model)}")
                     break
                 model.clear()
-            elif k == "init":
+            elif k in ("init", "reinit"):
                 req_id += 1
                 ver = op[1]
                 ci = copy.deepcopy(CLIENT_INFOS[op[2] % len(CLIENT_INFOS)])
+                # "reinit": the initialize request arrives on a connection that already has a session (its id is
+                # passed along); "same" = with the very client info that session recorded
+                with_sid: Optional[str] = None
+                if k == "reinit":
+                    with_sid = ref(op[3])
+                    if len(op) > 4 and op[4] == "same" and with_sid in model:
+                        ci = copy.deepcopy(model[with_sid]["client_info"])
                 params: Dict[str, Any] = {"capabilities": {}, "clientInfo": ci}
                 if ver is not None:
                     params["protocolVersion"] = ver
@@ -204,9 +211,11 @@ def check(case: Dict[str, Any]) -> Outcome:
                 before = set(store.list_sessions().keys())
 
                 async def go():
-                    return await handler.handle_message(msg)
+                    return await handler.handle_message(msg, with_sid) if with_sid is not None else await handler.handle_message(msg)
 
                 resp, sid = run_virtual(go)
+                if with_sid is not None and with_sid in model:
+                    model[with_sid]["last_activity"] = float(clock.now)  # a message bearing that session id
                 new = set(store.list_sessions().keys()) - before
                 if len(new) != 1:
                     out.fail("initialize-did-not-create-exactly-one-session", f"step {step}: {len(new)} new")
@@ -270,6 +279,7 @@ _op = st.one_of(
     st.tuples(st.just("list_mutate"), st.sampled_from(["add", "remove", "clear"])).map(list),
     st.just(["clear"]),
     st.tuples(st.just("init"), st.sampled_from(VERSIONS + [None, "draft", 7]), st.integers(0, 2)).map(list),
+    st.tuples(st.just("reinit"), st.sampled_from(VERSIONS + [None]), st.integers(0, 2), _ref, st.sampled_from(["same", "other"])).map(list),
     st.tuples(st.just("dispatch"), st.sampled_from(["ping", "ping", "nope/method", "boom/raise", "fine/ok"]), _ref).map(list),
 )
 
@@ -285,7 +295,7 @@ def job_hyp(col: Collector, seed: int, tier: str, shard: int, n: int, max_len: i
 ALPHABET: List[List[Any]] = [
     ["create", 1, 0], ["get", 0], ["get", 1], ["update", 0], ["update", 1], ["delete", 0], ["delete", 1],
     ["advance", 1], ["advance", 60], ["cleanup", 60], ["cleanup", 0], ["cleanup", ["idle_of", 0, 0]],
-    ["list_mutate", "remove"], ["list_mutate", "add"], ["dispatch", "ping", 0], ["dispatch", "boom/raise", 0],
+    ["list_mutate", "remove"], ["list_mutate", "add"], ["dispatch", "ping", 0], ["dispatch", "boom/raise", 0], ["reinit", "2025-03-26", 1, 0, "same"],
 ]
 
 
@@ -339,6 +349,11 @@ def job_machine(col: Collector, seed: int, tier: str, shard: int, n: int, steps:
         @rule(target=sessions, ver=st.sampled_from(VERSIONS + [None, "draft", 7]), ci=st.integers(0, 2))
         def initialize_request(self, ver, ci):
             self.ops.append(["init", ver, ci])
+            return self._new()
+
+        @rule(target=sessions, s=sessions, ver=st.sampled_from(VERSIONS + [None]), ci=st.integers(0, 2), how=st.sampled_from(["same", "other"]))
+        def initialize_again_on(self, s, ver, ci, how):
+            self.ops.append(["reinit", ver, ci, s, how])
             return self._new()
 
         @rule(s=sessions)
